@@ -89,5 +89,12 @@ _db("C03", "A snapshot or iterator sees exactly the state at its creation", ["c0
 _db("C11", "Exactly the needed files are on disk", ["c11:"],
     "Lean 4 proof + directory listing vs state dump", "under construction", [], [])
 
+_db("C02", "Acknowledged writes survive a crash at any point; batches are all-or-nothing", ["c02:", "c09:"],
+    "Lean 4 proof over the durability model + exhaustive crash-prefix enumeration on SimFs", "under construction", [], [], comps=("c02",))
+_db("C16", "A torn final write costs at most the unacknowledged tail", ["c16:", "c09:"],
+    "Lean 4 proof (clean-append / torn-not-reused) + torn-write enumeration on SimFs", "under construction", [], [], comps=("c16",))
+_db("C08", "I/O failures are reported, never swallowed; nothing acknowledged is lost", ["c08:", "c09:"],
+    "Lean 4 proof over the fault model + single-fault enumeration on SimFs", "under construction", [], [], comps=("c08",))
+
 # properties whose check is registered in MANIFEST.json
 CLAIMED = ["C12", "C13", "C14"]
